@@ -76,6 +76,18 @@ func verifyFunc(prog *ssa.Program, specs *SpecDB, fn *ssa.Function, opts verifyO
 		f.vals[fv] = Val{T: c}
 	}
 	entry := st.clone()
+	// package-level facts (variables initialised once by package init and never reassigned)
+	for _, gs := range specs.globals {
+		gctx := &SpecCtx{f: f, vars: map[string]SV{}, cur: entry, old: entry, g: "true"}
+		for _, p := range prog.AllPackages() {
+			if p.Pkg.Path() == gs.Pkg {
+				gctx.pkg = p.Pkg
+			}
+		}
+		gctx.globalClause = true
+		e.assume(gctx.eval(gs.Expr).T)
+		e.note("assumed package-level fact (variables set by package initialisation, checked never to be assigned elsewhere): " + gs.Src)
+	}
 	var mods []modEntry
 	if sp != nil {
 		ctx := f.ctxFor(fn, args, nil, entry, entry, "true")
